@@ -1475,7 +1475,12 @@ func TestCLI(t *testing.T) {
 			last.Seq = last.Seq[:len(last.Seq)-1]
 		}
 		return c
-	}, func(c cliCase) (o pbt.Outcome, err error) {
+	}, func(c cliCase) (pbt.Outcome, error) { return checkCLI(dir, c) })
+}
+
+// checkCLI: one execution of goalign dedup / compress, judged alignment by alignment
+func checkCLI(dir string, c cliCase) (o pbt.Outcome, err error) {
+	{
 		if c.BigD != nil {
 			c.Rows = c.BigD.rows()
 			o.Class("large:dedup rows>12")
@@ -1606,6 +1611,27 @@ func TestCLI(t *testing.T) {
 				return o, fmt.Errorf("goalign %v: %d lines in the log/weight file for %d %s in %d alignment(s): %q", args, len(lines), want, what, len(blocks), trunc(string(lb), 300))
 			}
 		}
+		// multi-alignment dedup inputs whose alphabet is detected per alignment: what each alignment is
+		// (nt, aa, or not definite), so that the evidence shows which successions were explored
+		mixed := ""
+		if multi && c.Cmd == "dedup" && c.AlphaFlag != "nt" && c.AlphaFlag != "aa" {
+			undefinedBefore, kinds := false, []string{}
+			for _, rows := range alis {
+				d := definiteAlphabet("auto", rows)
+				if d == "" {
+					d = "open"
+					undefinedBefore = true
+				} else if c.NAsGap && undefinedBefore &&
+					len(refDedup(rows, func(s string) string { return keyWith(s, string(wildcard(d))) }).kept) < len(refDedup(rows, func(s string) string { return s }).kept) {
+					o.Class("multi-mixed:duplicates-up-to-wildcard-in-a-definite-alignment-behind-one-of-no-definite-alphabet")
+				}
+				kinds = append(kinds, d)
+			}
+			mixed = " [alphabets of the file's alignments: " + strings.Join(kinds, ",") + "]"
+			sort.Strings(kinds)
+			o.Class("multi-mixed:n=%d,nasgap=%v", len(alis), c.NAsGap)
+			o.Class("multi-mixed:alphabets(sorted)=%s", strings.Join(kinds, ","))
+		}
 		next := 0
 		for k, rows := range alis {
 			got := blocks[k]
@@ -1620,7 +1646,7 @@ func TestCLI(t *testing.T) {
 			}
 			where := ""
 			if multi {
-				where = fmt.Sprintf(" (alignment %d of %d)", k+1, len(alis))
+				where = fmt.Sprintf(" (alignment %d of %d)%s", k+1, len(alis), mixed)
 			}
 			if c.Cmd == "dedup" {
 				var groups [][]string // nil: only the rows are observable
@@ -1698,7 +1724,7 @@ func TestCLI(t *testing.T) {
 			o.Class("names-with-trailing-blank-or-upper-case")
 		}
 		return o, nil
-	})
+	}
 }
 
 func trunc(s string, n int) string {
@@ -1767,4 +1793,53 @@ func parsePhylipMulti(s string) ([][]gen.Row, error) {
 		out = append(out, rows)
 	}
 	return out, nil
+}
+
+// TestCLIMixed: goalign dedup on one relaxed Phylip file holding 2-4 alignments that differ in
+// alphabet (nucleotide, protein, or one that detection cannot settle: residues common to both, or a
+// residue outside both), in size and in whether they hold duplicates up to N/X versus gap, the
+// alphabet being detected per alignment (--alphabet absent or auto), under every option combination.
+// Every output alignment and its share of the group log is judged by the oracle that judges the
+// alignment when it is given alone: what came before it in the file must not matter.
+func TestCLIMixed(t *testing.T) {
+	if cli.Binary() == "" {
+		t.Skip("no goalign binary")
+	}
+	dir := cli.TempDir("c13mix")
+	pbt.Run(t, func(t *rapid.T) cliCase {
+		c := cliCase{Cmd: "dedup"}
+		c.NAsGap = rapid.IntRange(0, 3).Draw(t, "nasgap") != 0
+		c.WithLog = rapid.IntRange(0, 3).Draw(t, "withlog") != 0
+		c.ToFile = rapid.Bool().Draw(t, "tofile")
+		c.OutState = rapid.SampledFrom([]int{0, 1, 2, 2}).Draw(t, "outstate")
+		c.LogState = rapid.SampledFrom([]int{0, 1, 2, 2}).Draw(t, "logstate")
+		c.OneLine = rapid.Bool().Draw(t, "oneline")
+		c.NoBlock = rapid.Bool().Draw(t, "noblock")
+		c.AlphaFlag = rapid.SampledFrom([]string{"", "auto"}).Draw(t, "alphaflag")
+		one := func() []gen.Row {
+			alphabet := rapid.SampledFrom([]string{"nt", "aa"}).Draw(t, "alphabet")
+			rows := genRows(t, alphabet, false, 6, 10)
+			suffix := ""
+			switch rapid.IntRange(0, 5).Draw(t, "detected") {
+			case 0: // residues that may fit both alphabets: detection is open
+			case 1, 2: // a residue outside both alphabets, or residues exclusive to each: no alphabet fits
+				suffix = rapid.SampledFrom(foreignSuffixes).Draw(t, "suffix")
+			default: // a residue that only this alphabet has
+				suffix = map[string]string{"aa": "E", "nt": "U"}[alphabet]
+			}
+			if rapid.IntRange(0, 9).Draw(t, "long") == 0 { // beyond the Phylip line width
+				suffix += gen.SeqN(t, "AC", rapid.SampledFrom([]int{49, 50, 51, 61, 125}).Draw(t, "pad"))
+			}
+			for i := range rows {
+				rows[i].Seq += suffix
+			}
+			return rows
+		}
+		c.Alphabet = "mixed"
+		c.Rows = one()
+		for k := rapid.IntRange(1, 3).Draw(t, "extra"); k > 0; k-- {
+			c.Extra = append(c.Extra, one())
+		}
+		return c
+	}, func(c cliCase) (pbt.Outcome, error) { return checkCLI(dir, c) })
 }
